@@ -213,6 +213,13 @@ Fixpoint value_terms (vl : var -> qd) (ts : list (var * Q)) (acc : qd) : qd :=
   end.
 Definition value_lin (s : state) (l : lin) : qd := value_terms (vals s) (lterms l) (qd_of_q (lconst l)).
 
+(* bounds(lin) = (lb(lin), ub(lin)); equates(l0, l1): the two bound intervals intersect
+     `l0_ub >= l1_lb && l0_lb <= l1_ub`   (an infinite end never excludes anything) *)
+Definition bounds_lin (s : state) (l : lin) : option qd * option qd := (lb_lin s l, ub_lin s l).
+Definition lb_le_ub (lo hi : option qd) : bool := match lo, hi with Some l, Some u => qd_leb l u | _, _ => true end.
+Definition equates (s : state) (l0 l1 : lin) : bool :=
+  lb_le_ub (lb_lin s l1) (ub_lin s l0) && lb_le_ub (lb_lin s l0) (ub_lin s l1).
+
 (* comparisons of a finite value with a possibly infinite bound *)
 Definition le_lb (v : qd) (b : option qd) : bool := match b with None => false | Some l => qd_leb v l end.   (* v <= lb *)
 Definition gt_ub (v : qd) (b : option qd) : bool := match b with None => false | Some u => qd_ltb u v end.   (* v >  ub *)
